@@ -7,7 +7,7 @@ from .c05 import content_field_writes, node_of
 LEVEL = 'other'
 RULES = {
     'C04.R1': 'who may write node functions (AffContent.aff) outside constructors: from_poly (fresh root), apply_func_at_node, update_node, remove_axes, unary_op_inplace; who may write the cached state / witnesses (AffContent.state): new nodes start Indeterminate (shared with C05.R2)',
-    'C04.R2': 'shape of what is written: composition kernels keep the input dimension (rows(A) x n), apply_func visits all terminals, remove_axes rewrites every node and in_dim together, decisions are copied with their row count',
+    'C04.R2': 'shape of what is written: composition kernels keep the input dimension (rows(A) x n), apply_func visits all terminals, remove_axes rewrites every node and in_dim together, decisions are copied with their row count; constructors declare the input dimension of the function they store (from_aff, with_capacity, new, from_poly)',
     'C04.R3': 'a removal must not leave a decision without children (a childless decision is flagged as terminal)',
     'C04.R4': 'every call of Tree::merge_child_with_parent (asserts exactly one child) is preceded by the removal of the node\'s other children and guarded by the single-survivor conditions',
 }
@@ -19,7 +19,7 @@ WRAPPERS = {
     'AffTree::add_child_node': ('Tree::add_child_node(self.tree, node, label, AffContent::new(aff))', [], 'attaches a fresh node (state Indeterminate) holding aff under (node, label)'),
     'AffTree::from_tree': ('AffTree::AffTree{tree, dim, RefCell::new(Vec::new())}', [], 'wraps the tree with the given input dimension and an empty scratch cache'),
 }
-FLOORS = {'C04.R1': 8, 'C04.R2': 15, 'C04.R3': 5, 'C04.R4': 7}
+FLOORS = {'C04.R1': 8, 'C04.R2': 19, 'C04.R3': 5, 'C04.R4': 7}
 EXPLANATION = 'Input-dimension / common-output-dimension preservation, absence of the childless-decision state, absence of the merge assertion panic, for all histories.'
 DOES_NOT_DECIDE = 'panics reachable through unwrap/indexing inside ndarray/minilp; numeric content of node functions'
 ALLOWED_WRITERS = {
@@ -194,8 +194,55 @@ def r4(ctx):
                 ctx.bad('C04.R4', site + ':root', 'the Err(RootNode) of merge_child_with_parent is unwrapped although p may be the root: the operation would panic', t['span'])
 
 
+def constructors_in_dim(ctx):
+    """A tree's declared input dimension is the input dimension of the functions it is built from: from_aff -> indim(func), with_capacity(dim)
+    -> dim together with identity(dim) at the root, new -> with_capacity(dim, _), from_poly -> the (checked equal) indim of poly / func_true."""
+    from ..mir import agg_field
+    F = ctx.facts
+
+    def ret_agg(q):
+        b = ctx.body('C04.R2', q)
+        if b is None:
+            return None, None, None
+        R = Resolver(b)
+        rets = [e for _, e in R.return_expr()]
+        return b, R, (rets[0] if len(rets) == 1 else None)
+    b, R, e = ret_agg('AffTree::from_aff')
+    if b is not None:
+        d = agg_field(e, 'in_dim') if e is not None else None
+        root = agg_field(e, 'tree') if e is not None else None
+        ok = d is not None and is_call(d, 'AffFuncBase::indim') and s(d[2][0]) == ('param', 'func') and root is not None and any(s(x) == ('param', 'func') for x in walk(root))
+        (ctx.ok if ok else ctx.bad)('C04.R2', 'AffTree::from_aff#in_dim', 'in_dim = indim(func), func stored at the root' if ok else
+                                    'from_aff does not declare the input dimension of the function it stores', b.span)
+    b, R, e = ret_agg('AffTree::with_capacity')
+    if b is not None:
+        d = agg_field(e, 'in_dim') if e is not None else None
+        root = agg_field(e, 'tree') if e is not None else None
+        ok = d is not None and s(d) == ('param', 'dim') and root is not None and any(is_call(x, 'AffFuncBase::identity') and s(x[2][0]) == ('param', 'dim') for x in walk(root))
+        (ctx.ok if ok else ctx.bad)('C04.R2', 'AffTree::with_capacity#in_dim', 'in_dim = dim, root = identity(dim)' if ok else
+                                    'with_capacity does not pair the declared input dimension with an identity root of that dimension', b.span)
+    b, R, e = ret_agg('AffTree::new')
+    if b is not None:
+        ok = e is not None and is_call(e, 'AffTree::with_capacity') and s(e[2][0]) == ('param', 'dim')
+        (ctx.ok if ok else ctx.bad)('C04.R2', 'AffTree::new#in_dim', 'with_capacity(dim, ..)' if ok else 'new(dim) does not create a tree of input dimension dim', b.span)
+    b = ctx.body('C04.R2', 'AffTree::from_poly')
+    if b is not None:
+        R = Resolver(b)
+        wc = [R.call_args(bb) for bb, t in b.calls_to('AffTree::with_capacity', 'AffTree::new', 'AffTree::from_aff')]
+        ok = False
+        if len(wc) == 1:
+            d = s(wc[0][0])
+            ok = is_call(d, 'AffFuncBase::indim') and d[2][0] in (('param', 'func_true'), ('param', 'poly'))
+            # a struct that carries the shape of func_true / poly: its input component
+            if not ok and d[0] == 'call' and d[1] == 'AffFuncBase::indim':
+                ok = False
+        (ctx.ok if ok else ctx.bad)('C04.R2', 'AffTree::from_poly#in_dim', 'the tree is created with indim(func_true) (= indim(poly), checked first)' if ok else
+                                    'from_poly does not create the tree with the input dimension of poly / func_true (%s)' % (fmt(s(wc[0][0]))[:80] if len(wc) == 1 else 'no single constructor call'), b.span)
+
+
 def run(ctx):
     prune.check_wrappers(ctx, 'C04.R1', WRAPPERS)
+    constructors_in_dim(ctx)
     r1(ctx)
     # the cached feasibility state carries witness points; a state that travels from another tree (copied with a node's content) holds
     # points of that tree's input space, and the next elimination / pruned operation evaluates them against this tree's rows (shape panic):
